@@ -375,6 +375,10 @@ spif_str_append(spif_str_t self, spif_str_t other)
     REQUIRE_RVAL(!SPIF_STR_ISNULL(other), FALSE);
     if (other->size && other->len) {
         self->size += other->size - 1;
+        if (self->s == (spif_charptr_t) NULL) {
+            /* No buffer yet, so no terminator has been counted either. */
+            self->size++;
+        }
         self->s = (spif_charptr_t) REALLOC(self->s, self->size);
         memcpy(self->s + self->len, STR_TEXT(other), other->len + 1);
         self->len += other->len;
@@ -388,7 +392,7 @@ spif_str_append_char(spif_str_t self, spif_char_t c)
     ASSERT_RVAL(!SPIF_STR_ISNULL(self), FALSE);
     self->len++;
     if (self->size <= self->len) {
-        self->size++;
+        self->size = self->len + 1;
         self->s = (spif_charptr_t) REALLOC(self->s, self->size);
     }
     self->s[self->len - 1] = c;
@@ -406,6 +410,9 @@ spif_str_append_from_ptr(spif_str_t self, spif_charptr_t other)
     len = strlen((const char *) other);
     if (len) {
         self->size += len;
+        if (self->s == (spif_charptr_t) NULL) {
+            self->size++;
+        }
         self->s = (spif_charptr_t) REALLOC(self->s, self->size);
         memcpy(self->s + self->len, other, len + 1);
         self->len += len;
@@ -567,7 +574,13 @@ spif_str_prepend(spif_str_t self, spif_str_t other)
     REQUIRE_RVAL(!SPIF_STR_ISNULL(other), FALSE);
     if (other->size && other->len) {
         self->size += other->size - 1;
-        self->s = (spif_charptr_t) REALLOC(self->s, self->size);
+        if (self->s == (spif_charptr_t) NULL) {
+            self->size++;
+            self->s = (spif_charptr_t) MALLOC(self->size);
+            self->s[0] = 0;
+        } else {
+            self->s = (spif_charptr_t) REALLOC(self->s, self->size);
+        }
         memmove(self->s + other->len, self->s, self->len + 1);
         memcpy(self->s, STR_TEXT(other), other->len);
         self->len += other->len;
@@ -579,12 +592,17 @@ spif_bool_t
 spif_str_prepend_char(spif_str_t self, spif_char_t c)
 {
     ASSERT_RVAL(!SPIF_STR_ISNULL(self), FALSE);
+    if (self->s == (spif_charptr_t) NULL) {
+        self->size = 1;
+        self->s = (spif_charptr_t) MALLOC(self->size);
+        self->s[0] = 0;
+    }
     self->len++;
     if (self->size <= self->len) {
-        self->size++;
+        self->size = self->len + 1;
         self->s = (spif_charptr_t) REALLOC(self->s, self->size);
     }
-    memmove(self->s + 1, self->s, self->len + 1);
+    memmove(self->s + 1, self->s, self->len);
     self->s[0] = (spif_uchar_t) c;
     return TRUE;
 }
@@ -599,7 +617,13 @@ spif_str_prepend_from_ptr(spif_str_t self, spif_charptr_t other)
     len = strlen((const char *) other);
     if (len) {
         self->size += len;
-        self->s = (spif_charptr_t) REALLOC(self->s, self->size);
+        if (self->s == (spif_charptr_t) NULL) {
+            self->size++;
+            self->s = (spif_charptr_t) MALLOC(self->size);
+            self->s[0] = 0;
+        } else {
+            self->s = (spif_charptr_t) REALLOC(self->s, self->size);
+        }
         memmove(self->s + len, self->s, self->len + 1);
         memcpy(self->s, other, len);
         self->len += len;
